@@ -16,7 +16,9 @@
 // Recorded = every interposed call made through the PLT by the program with a path argument, or on a file
 // descriptor that came from a recorded open(), or on fd 0/1 (read/write/lseek/fstat/poll only). libc-internal
 // calls (stdio, fclose(stdout), locale) do not pass through the PLT and are not seen. One line per call:
-//   <k> <op> <fd:NAME|path:NAME> <arg1> <arg2> = <ret> <errno> <dev>:<ino> <injected>
+//   <k> <op> <fd:NAME|path:NAME> <arg1> <arg2> = <ret> <errno> <dev>:<ino> <injected> b<mask>
+// <mask>: which of the signals xz hooks are blocked in the calling thread when the call returns
+// (bit 0 INT, 1 TERM, 2 HUP, 3 PIPE, 4 XCPU, 5 XFSZ) -- xz blocks them exactly inside io_open_*/io_close/messages.
 #define _GNU_SOURCE
 #include <dlfcn.h>
 #include <errno.h>
@@ -196,8 +198,15 @@ static void rec(long k, const char *op, const char *kind, const char *name, long
 		const struct stat *st, const struct verdict *v)
 {
 	char b[4400];
-	int n = snprintf(b, sizeof(b), "%ld %s %s:%s %ld %ld = %ld %d %lu:%lu %s\n", k, op, kind, name, a1, a2, ret,
-			ret < 0 ? err : 0, st ? (unsigned long)st->st_dev : 0UL, st ? (unsigned long)st->st_ino : 0UL, v->inj);
+	static const int hooked[6] = { SIGINT, SIGTERM, SIGHUP, SIGPIPE, SIGXCPU, SIGXFSZ };
+	sigset_t cur;
+	unsigned mask = 0;
+	if (sigprocmask(SIG_BLOCK, NULL, &cur) == 0)
+		for (int i = 0; i < 6; ++i)
+			if (sigismember(&cur, hooked[i]) == 1)
+				mask |= 1u << i;
+	int n = snprintf(b, sizeof(b), "%ld %s %s:%s %ld %ld = %ld %d %lu:%lu %s b%x\n", k, op, kind, name, a1, a2, ret,
+			ret < 0 ? err : 0, st ? (unsigned long)st->st_dev : 0UL, st ? (unsigned long)st->st_ino : 0UL, v->inj, mask);
 	if (n > 0)
 		logline(b, (size_t)n < sizeof(b) ? (size_t)n : sizeof(b) - 1);
 }
